@@ -17,6 +17,9 @@ ParsesOK == NoPanic => T.migrate_err = "" /\ T.parses
 ValueOK  == NoPanic /\ T.parses => T.got = T.den
 \* text outside expressions is unchanged
 TextOK   == NoPanic /\ T.parses => T.text_outside_same
-InvC17 == Check("C17.ParsesOK", ParsesOK) /\ Check("C17.ValueOK", ValueOK) /\ Check("C17.TextOK", TextOK) /\ Check("C17.NoPanic", NoPanic)
+\* migrated with DefaultToSelf, the template renders the same - and an expression that fails to evaluate renders as the legacy
+\* text it was written as (the value the legacy engine gave it)
+SelfDefaultOK == NoPanic /\ T.parses => T.self_ok
+InvC17 == Check("C17.SelfDefaultOK", SelfDefaultOK) /\ Check("C17.ParsesOK", ParsesOK) /\ Check("C17.ValueOK", ValueOK) /\ Check("C17.TextOK", TextOK) /\ Check("C17.NoPanic", NoPanic)
 Accepted == TLCGet("stats").diameter = Len(Trace)
 =============================================================================
